@@ -34,6 +34,13 @@ def main():
         # rationals of long histories grow quickly; the count is in the evidence)
         KC.correspondence(rep, fam, 1000 if thorough else 120, 18 if thorough else 14, tag="c11", maxdigits=40)
     seen = M.monitor(rep, PID, fams, 2400 if thorough else 200, 24 if thorough else 14)
+    # whole models (netgen): every queue tank declares what it holds plus the decay still to be booked, at both ends of
+    # every timestep and after requests made directly over every arc of models that have run
+    import mon_probe
+    import net_check
+    seen_net = net_check.monitor_models(rep, PID, 300 if thorough else 60, 7 if thorough else 4)
+    seen_net.update(mon_probe.run(rep, thorough, pid=PID) or {})
+    seen.update({k: (v, "net", {"ops": [], "cls": "model"}, -1) for k, v in seen_net.items()})
     C.apply_known(rep, PID, seen)
     rule = ("correspondence: generic_temperature_decay(_c) on random fluxes, decay tables (constants 0..3/2, exponents "
             "1/2..2, products above 1 included, pollutants without parameters) and temperatures (integer and "
@@ -42,7 +49,8 @@ def main():
             "close-outs at varying temperature) on DecayTank, DecayQueueTank, DecayArc and DecayArcAlt; monitor after every operation: "
             "at close-out remaining + reported = held before, nothing increases, no more than present removed, volume and pollutants "
             "with constant 0 untouched; at a push entered = growth of what is held + delivered + growth of reported decay. "
-            "non-trivial = distinct case with at least one decaying pollutant / sequence of >= 3 operations")
+            "whole models: random models run in exact arithmetic, queue tanks declare what they hold plus unbooked decay at both ends of every "
+            "timestep and after direct requests over every arc. non-trivial = distinct case with at least one decaying pollutant / sequence of >= 3 operations")
     return rep.finish(rule, ["decay keys are additive pollutants (well-formedness)",
                              "pow oracle hypotheses (see trusted_base)"])
 
